@@ -41,7 +41,13 @@ THEOREMS = [P_ + n for n in (
     'poissonPrior_eq_rateSpec', 'distVec_eq_spec', 'distSpec_symm',
     'calcRdmNoDesc_correct', 'calcRdm_correct', 'calcRdm_obs_perm', 'calcRdm_remove_mean',
     'propagate_spec', 'calcRdm_descs', 'calcRdmList_entry', 'movie_eq_stack', 'binTime_spec', 'lbl_order_ok',
-    'calcRdmList_singleton', 'fromPartials_length', 'movie_frames_general', 'mergeRdmDescs_spec')]
+    'calcRdmList_singleton', 'fromPartials_length', 'movie_frames_general', 'mergeRdmDescs_spec',
+    # round 3: call layer (dispatch / forwarding leaves, descriptors, input forms)
+    'calcRdm_dispatch', 'opts_spec_meaning', 'calcRdm_call', 'list_options_forwarded',
+    'rdmEntries_spec', 'single_rdesc_attached', 'calcTop_one', 'calcTop_many',
+    'calcTop_singleton', 'list_rdesc_attached', 'mergeStacks_spec', 'movie_frame_options',
+    'topMovie_spec', 'movie_list_options', 'movieTop_forms', 'parse_int_eq_float',
+    'parse_container', 'condMeansInt_eq')]
 RULE = ('one PRNG drives everything. A case is one calc_rdm / calc_rdm_movie call: dataset(s) of '
         '2-14 observations x 1-6 channels with values that are small integers or eighths, int or '
         'str labels (balanced or not, shuffled), extra obs descriptors (constant / varying within '
@@ -50,8 +56,12 @@ RULE = ('one PRNG drives everything. A case is one calc_rdm / calc_rdm_movie cal
         'with differing label sets (with / without condition descriptor), movies with / without '
         'bins (time values may repeat, bins may have equal means, time descriptor / bins as lists or '
         'arrays, default or second time descriptor, per-dataset noise), vector-valued dataset '
-        'descriptors, noise lists with None entries. Each case carries a variant (observation permutation, list/array descriptors, '
-        'int/float dtype, ds vs [ds]). Non-trivial = at least 2 conditions and not all '
+        'descriptors, noise lists with None entries; bins as arrays / lists / tuples / one 2-D array, '
+        'overlapping bins, bin values that are no time point, values listed twice; per-dataset noise as '
+        'list / tuple / 3-D array; priors given or left to the defaults. Each case carries a variant '
+        '(observation permutation, list/array descriptors, int/float dtype, C / Fortran / strided memory '
+        'layout, ds vs [ds]); the model\'s call layer is executed on the variant form and on the base form '
+        'and both answers must agree. Non-trivial = at least 2 conditions and not all '
         'dissimilarities equal; distinct = distinct (kind, method, options, data, variant).')
 BRANCHES = ['desc:none', 'desc:given', 'avg:yes', 'avg:no', 'noise:none', 'noise:matrix',
             'noise:list', 'list:labelled', 'list:unlabelled', 'list:single', 'list:missing', 'list:aligned',
@@ -61,16 +71,21 @@ BRANCHES = ['desc:none', 'desc:given', 'avg:yes', 'avg:no', 'noise:none', 'noise
             'movie:repeated_time', 'movie:merged_bins', 'movie:default_time', 'movie:time_list',
             'movie:bins_list', 'movie:noise_list', 'movie:other_time_descriptor',
             'noise:list_none', 'ddesc:vector', 'ddesc:names_differ',
-            'method:euclidean', 'method:correlation', 'method:mahalanobis', 'method:poisson']
+            'method:euclidean', 'method:correlation', 'method:mahalanobis', 'method:poisson',
+            # round 3
+            'movie:nodesc_repeated', 'movie:bins_tuple', 'movie:bins_array2d',
+            'movie:bins_overlap', 'movie:bins_foreign', 'movie:bins_dupval', 'movie:dtype_int',
+            'noise:array3d', 'noise:tuple', 'layout:F', 'layout:strided', 'form:base_checked',
+            'means:int', 'priors:default', 'priors:given']
 ASSUMPTIONS = [
     'float64 evaluation of either side is within 1e-9 relative / 1e-12 absolute of the exact value '
     '(inputs are small integers / eighths, well-conditioned by construction)',
     'correlation is only asked for condition means that are not constant across channels; poisson '
     'only for positive regularised rates (the formulas are undefined otherwise)',
-    'bins are non-empty; without a condition descriptor time values are distinct and bins have '
-    'distinct mean times (merged frames would have more positional conditions than the other '
-    'frames, which concat refuses); with a descriptor repeated time values and equal-mean bins '
-    'are generated (they share one frame)',
+    'every bin selects at least one time point; without a condition descriptor repeated time '
+    'values / equal-mean bins are generated only when every frame merges equally many slices '
+    '(frames with different numbers of positional conditions are refused by concat); with a '
+    'descriptor arbitrary repeats and equal-mean bins are generated (they share one frame)',
 ]
 TRUSTED_EXTRA = [
     'scipy.spatial.distance.squareform: vector <-> symmetric hollow matrix in triu order '
@@ -237,7 +252,7 @@ def _all_int(datasets):
 def _variant(rng, case):
     v = {'desc_type': rng.choice(['list', 'array']),
          'dtype': 'int' if _all_int(case['datasets']) and rng.random() < 0.6 else 'float',
-         'wrap': 'single', 'perm': None}
+         'wrap': 'single', 'perm': None, 'layout': rng.choice(['C', 'C', 'F', 'strided'])}
     if case['kind'] == 'single' and rng.random() < 0.3:
         v['wrap'] = 'list1'
     if case['kind'] in ('single', 'list') and case['datasets'][0]['labels'] is not None \
@@ -257,6 +272,8 @@ def _method_opts(rng, method, P, n_ds=1, allow_rm=True):
             opts['noise'] = {'per': [_noise(rng, P) for _ in range(n_ds)]}
             if rng.random() < 0.6:      # None = identity default for that dataset
                 opts['noise']['per'][rng.randrange(n_ds)] = None
+            else:                       # all entries given: list, tuple or one 3-D array
+                opts['noise']['container'] = rng.choice(['list', 'tuple', 'array3d'])
         else:
             opts['noise'] = {'one': _noise(rng, P)}
     if method == 'poisson' and rng.random() < 0.6:
@@ -361,9 +378,18 @@ def gen_movie(rng):
     repeated = labelled and T >= 2 and rng.random() < 0.2
     if repeated:
         times[rng.randrange(1, T)] = times[0]
+    uniform_rep = (not labelled) and T >= 2 and rng.random() < 0.25
+    if uniform_rep:
+        # without a descriptor repeated time values are only accepted when every value repeats
+        # equally often (all frames then have the same number of positional conditions)
+        k = rng.choice([2, 2, 3])
+        base = rng.sample([F(q, 4) for q in range(-4, 24)], rng.randint(1, 2))
+        times = [v for v in base for _ in range(k)]
+        rng.shuffle(times)
+        T = len(times)
     if rng.random() < 0.6:
         times.sort()
-    default_time = (not repeated) and rng.random() < 0.1
+    default_time = (not repeated) and (not uniform_rep) and rng.random() < 0.1
     if default_time:
         times = [F(t) for t in range(T)]
     bins = None
@@ -376,16 +402,30 @@ def gen_movie(rng):
         if rng.random() < 0.3 and len(groups) > 1:
             groups = groups[:-1]        # some time points in no bin
         bins = groups
-        if len(_frame_groups(times, bins)) < len(bins) and not labelled:
-            bins = None     # merged frames change the number of (positional) conditions
+        extra = rng.random()
+        if extra < 0.15 and len(groups) > 1:      # overlapping bins: a time value in two bins
+            bins = [list(b) for b in groups]
+            bins[1] = bins[1] + [bins[0][0]]
+        elif extra < 0.30:                         # values that are no time point of the dataset
+            bins = [list(b) for b in groups]
+            bins[rng.randrange(len(bins))].append(F(99, 4))
+        elif extra < 0.40:                         # a value listed twice inside one bin
+            bins = [list(b) for b in groups]
+            j = rng.randrange(len(bins))
+            bins[j] = bins[j] + [bins[j][0]]
+        if not labelled and len({len(sels) for _tv, sels in _frame_groups(times, bins)}) > 1:
+            # frames with different numbers of (positional) conditions: concat refuses them
+            bins = None
     conds = _labels(rng, rng.choice([2, 3, 3, 4])) if labelled else None
+    int_vals = rng.random() < 0.35
     dss = []
     for _ in range(n_ds):
         for _try in range(50):
             base = _gen_dataset(rng, P, method, labelled, conds=conds,
                                 n_obs=None if labelled else 3)
             n = len(base['X'])
-            X3 = [[[_val(rng, method, True) for _ in range(T)] for _ in range(P)] for _ in range(n)]
+            X3 = [[[_val(rng, method, not int_vals) for _ in range(T)] for _ in range(P)]
+                  for _ in range(n)]
             if method == 'correlation' and not _movie_ok(X3, base['labels'], times, bins):
                 continue
             break
@@ -413,8 +453,16 @@ def gen_movie(rng):
     case['as_list'] = n_ds > 1 or rng.random() < 0.15
     case['tform'] = {'default_time': default_time,
                      'tdesc_type': rng.choice(['array', 'array', 'list']),
-                     'bins_type': rng.choice(['array', 'array', 'list'])}
-    case['variant'] = {'desc_type': 'array', 'dtype': 'float', 'wrap': 'single', 'perm': None}
+                     'bins_type': rng.choice(['array', 'array', 'list', 'tuple', 'array2d'])}
+    if case['tform']['bins_type'] == 'array2d' and (
+            bins is None or len({len(b) for b in bins}) != 1):
+        case['tform']['bins_type'] = 'array'
+    if isinstance(case['noise'], dict) and 'per' in case['noise']:
+        case['noise']['container'] = rng.choice(['list', 'tuple', 'array3d'])
+    case['variant'] = {'desc_type': rng.choice(['array', 'list']),
+                       'dtype': 'int' if _all_int(dss) and rng.random() < 0.7 else 'float',
+                       'wrap': 'single', 'perm': None,
+                       'layout': rng.choice(['C', 'C', 'F'])}
     return case
 
 
@@ -439,7 +487,7 @@ def gen_unique(rng):
 
 
 def generate(rng, tier):
-    n = 1500 if tier == 'quick' else 120000
+    n = 1500 if tier == 'quick' else 90000
     for i in range(n):
         r = rng.random()
         if r < 0.04:
@@ -472,6 +520,12 @@ def _build(case, ds, k, temporal=False):
         p = var['perm'][k]
         X = X[p]
         descs = {name: [v[i] for i in p] for name, v in descs.items()}
+    if var.get('layout') == 'F':
+        X = np.asfortranarray(X)
+    elif var.get('layout') == 'strided' and not temporal:
+        big = np.zeros((X.shape[0], 2 * X.shape[1]), dtype=X.dtype)
+        big[:, ::2] = X
+        X = big[:, ::2]         # a non-contiguous view with the same values
     obs = {name: _np_desc(v, var['desc_type']) for name, v in descs.items()}
     if temporal:
         tform = case.get('tform', {})
@@ -495,8 +549,14 @@ def _noise_arg(case):
         return None
     if 'one' in nz:
         return np.array([[float(fr(v)) for v in row] for row in nz['one']])
-    return [None if m is None else np.array([[float(fr(v)) for v in row] for row in m])
-            for m in nz['per']]
+    per = [None if m is None else np.array([[float(fr(v)) for v in row] for row in m])
+           for m in nz['per']]
+    if all(m is not None for m in per):
+        if nz.get('container') == 'tuple':
+            return tuple(per)
+        if nz.get('container') == 'array3d':
+            return np.array(per)
+    return per
 
 
 def _call_kwargs(case):
@@ -522,9 +582,16 @@ def call_library(case):
             dss = [_build(case, ds, k, temporal=True) for k, ds in enumerate(case['datasets'])]
             arg = dss if case['as_list'] else dss[0]
             if case['bins'] is not None:
-                as_list = case.get('tform', {}).get('bins_type') == 'list'
-                kw['bins'] = [[float(fr(t)) for t in b] if as_list
-                              else np.array([float(fr(t)) for t in b]) for b in case['bins']]
+                bt = case.get('tform', {}).get('bins_type')
+                fb = [[float(fr(t)) for t in b] for b in case['bins']]
+                if bt == 'list':
+                    kw['bins'] = fb
+                elif bt == 'tuple':
+                    kw['bins'] = tuple(tuple(b) for b in fb)
+                elif bt == 'array2d':
+                    kw['bins'] = np.array(fb)
+                else:
+                    kw['bins'] = [np.array(b) for b in fb]
             if case['tname'] != 'time':
                 kw['time_descriptor'] = case['tname']
             return calc_rdm_movie(arg, **kw)
@@ -597,7 +664,13 @@ def run_impl(case):
         rdms = call_library(case)
     except Exception as exc:  # noqa: BLE001
         return {'exc': exc_name(exc)}
-    return canon_impl(case, rdms)
+    out = canon_impl(case, rdms)
+    if case['kind'] == 'single' and case['variant']['dtype'] == 'int' \
+            and case['datasets'][0]['labels'] is not None and 'exc' not in out:
+        from rsatoolbox.data import average_dataset_by
+        avg, uniq, _ = average_dataset_by(_build(case, case['datasets'][0], 0), 'cond')
+        out['means'] = {lkey(u): [float(x) for x in row] for u, row in zip(uniq, avg)}
+    return out
 
 
 # ------------------------------------------------------------------ model side
@@ -627,6 +700,67 @@ def _common(case):
             'remove_mean': bool(case['remove_mean'])}
 
 
+BASE_VARIANT = {'desc_type': 'array', 'dtype': 'float', 'wrap': 'single', 'perm': None,
+                'layout': 'C'}
+
+
+def _num_enc(case, x, as_int):
+    if as_int:
+        return int(fr(x))
+    return _enc(case, x)
+
+
+def _noise_json(case):
+    nz = case['noise']
+    if nz is None:
+        return None
+    if 'one' in nz:
+        return {'one': _enc_mat(case, nz['one'])}
+    return {'per': [None if m is None else _enc_mat(case, m) for m in nz['per']]}
+
+
+def _top_request(case, var, dummy_labels=False):
+    """the call in the input form `var` (what the library is handed), for the model's call layer"""
+    dss = case['datasets']
+    req = {'op': 'c01.top', 'mode': _mode(case), 'method': case['method'], 'P': case['P'],
+           'pl': _enc(case, case['pl']) if case['opts_given'] else None,
+           'pw': _enc(case, case['pw']) if case['opts_given'] else None,
+           'remove_mean': bool(case['remove_mean']), 'noise': _noise_json(case),
+           'wrap': 'many' if case['kind'] == 'list' or var['wrap'] == 'list1' else 'one',
+           'datasets': []}
+    as_int = var['dtype'] == 'int'
+    for k, ds in enumerate(dss):
+        n = len(ds['X'])
+        perm = var['perm'][k] if var.get('perm') else list(range(n))
+        labels = list(range(n)) if dummy_labels else ds['labels']
+        d = {'dtype': 'int' if as_int else 'float',
+             'X': [[_num_enc(case, v, as_int) for v in ds['X'][i]] for i in perm],
+             'labels': [labels[i] for i in perm],
+             'descs': [] if dummy_labels else
+             [[name, var['desc_type'], [ds['descs'][name][i] for i in perm]]
+              for name in sorted(ds['descs'])],
+             'ddesc': [[kk, vv] for kk, vv in ds['ddesc'].items()]}
+        req['datasets'].append(d)
+    return req
+
+
+def _movie_request(case, dummy_labels=False):
+    dss = case['datasets']
+    return {'op': 'c01.movietop', 'mode': _mode(case), 'method': case['method'], 'P': case['P'],
+            'pl': _enc(case, case['pl']) if case['opts_given'] else None,
+            'pw': _enc(case, case['pw']) if case['opts_given'] else None,
+            'noise': _noise_json(case), 'tname': case['tname'], 'times': case['times'],
+            'bins': case['bins'], 'wrap': 'many' if case['as_list'] else 'one',
+            'datasets': [{'X': [[[_enc(case, v) for v in ch] for ch in ob] for ob in ds['X']],
+                          'labels': list(range(len(ds['X']))) if dummy_labels else ds['labels'],
+                          'ddesc': [[kk, vv] for kk, vv in ds['ddesc'].items()]} for ds in dss]}
+
+
+def _is_base(var):
+    return all(var.get(k, BASE_VARIANT[k]) == BASE_VARIANT[k] for k in BASE_VARIANT
+               if k != 'layout')
+
+
 def model_requests(case):
     if case['kind'] == 'unique':
         return [{'op': 'c01.unique', 'labels': case['labels']}]
@@ -634,32 +768,48 @@ def model_requests(case):
     nz = case['noise']
     dss = case['datasets']
     labelled = dss[0]['labels'] is not None
+    var = case['variant']
+    if case['kind'] in ('single', 'list') and labelled:
+        # the model's call layer gets the call in the library's input form; the same call in the
+        # base form (no permutation, float data, array descriptors, bare dataset) is asked too
+        # and must give the same answer (executed instance of the invariance theorems)
+        reqs = [_top_request(case, var)]
+        if not _is_base(var):
+            reqs.append(_top_request(case, BASE_VARIANT))
+        if case['kind'] == 'single' and var['dtype'] == 'int':
+            ds = dss[0]
+            perm = var['perm'][0] if var.get('perm') else list(range(len(ds['X'])))
+            reqs.append({'op': 'c01.meansint', 'mode': _mode(case), 'P': case['P'],
+                         'labels': [ds['labels'][i] for i in perm],
+                         'X': [[int(fr(v)) for v in ds['X'][i]] for i in perm]})
+        return reqs
     if case['kind'] == 'single':
         ds = dss[0]
-        req.update(op='c01.calc', X=_enc_mat(case, ds['X']), labels=ds['labels'],
-                   noise=None if nz is None else _enc_mat(case, nz['one']),
-                   descs=[ds['descs'][k] for k in sorted(ds['descs'])] if labelled else [])
-        return [req]
+        req.update(op='c01.calc', X=_enc_mat(case, ds['X']), labels=None,
+                   noise=None if nz is None else _enc_mat(case, nz['one']), descs=[])
+        return [req, _top_request(case, BASE_VARIANT, dummy_labels=True)]
     if case['kind'] == 'list':
-        req.update(op='c01.list', labelled=labelled,
-                   datasets=[{'X': _enc_mat(case, ds['X']), 'labels': ds['labels']} for ds in dss])
+        req.update(op='c01.list', labelled=False,
+                   datasets=[{'X': _enc_mat(case, ds['X']), 'labels': None} for ds in dss])
         if nz is None:
             req['noises'] = None
         elif 'one' in nz:
             req['noises'] = [_enc_mat(case, nz['one'])] * len(dss)
         else:
             req['noises'] = [None if m is None else _enc_mat(case, m) for m in nz['per']]
-        # second request: the datasets' descriptors -> merged rdm descriptors of the stack
-        return [req, {'op': 'c01.rdesc',
-                      'dss': [[[k, v] for k, v in ds['ddesc'].items()] for ds in dss]}]
+        # second request: descriptors only (the labels are irrelevant for them)
+        return [req, _top_request(case, BASE_VARIANT, dummy_labels=True)]
+    if labelled:
+        return [_movie_request(case)]
     reqs = []
     for k, ds in enumerate(dss):
         r = dict(req)
         r.update(op='c01.movie', X=[[[_enc(case, v) for v in ch] for ch in ob] for ob in ds['X']],
-                 labels=ds['labels'], times=case['times'], bins=case['bins'],
+                 labels=None, times=case['times'], bins=case['bins'],
                  noise=None if nz is None else
                  _enc_mat(case, nz['one'] if 'one' in nz else nz['per'][k]))
         reqs.append(r)
+    reqs.append(_movie_request(case, dummy_labels=True))      # descriptors only
     return reqs
 
 
@@ -672,6 +822,52 @@ def _vals_from_vec(case, conds, vec):
     return vals
 
 
+def _rval_key(e):
+    if e is None:
+        return lkey(None)
+    if 's' in e:
+        return lkey(e['s'])
+    if 'v' in e:
+        return lkey(list(e['v']))
+    return lkey(unrat(e['t']))
+
+
+def _rdesc_rows(stack, n_rdm):
+    """per RDM: {name: key} from the model's column-wise rdm descriptors"""
+    if not isinstance(stack, dict) or stack.get('none') or 'rdesc' not in stack:
+        return None
+    rows = [{} for _ in range(n_rdm)]
+    for name, col in stack['rdesc']:
+        if len(col) != n_rdm:
+            return None
+        for k, e in enumerate(col):
+            rows[k][name] = _rval_key(e)
+    return rows
+
+
+def _n_from_len(m):
+    n = 0
+    while n * (n - 1) // 2 < m:
+        n += 1
+    return max(n, 1) if m else 1
+
+
+def _same_stack(case, a, b):
+    """two model answers agree (exactly in Rat mode, to rounding in Float mode)"""
+    if a.get('labels') != b.get('labels') or len(a['vecs']) != len(b['vecs']):
+        return False
+    for va, vb in zip(a['vecs'], b['vecs']):
+        if len(va) != len(vb):
+            return False
+        for x, y in zip(va, vb):
+            if (x is None) != (y is None):
+                return False
+            if x is not None and x != y and not close(_dec(case, x), _dec(case, y), RTOL, ATOL):
+                return False
+    ra, rb = _rdesc_rows(a, len(a['vecs'])), _rdesc_rows(b, len(b['vecs']))
+    return ra == rb
+
+
 def model_result(case, answers):
     for a in answers:
         if isinstance(a, dict) and 'model_error' in a:
@@ -680,44 +876,77 @@ def model_result(case, answers):
         return {'unique': [lkey(v) for v in answers[0]['unique']], 'inverse': answers[0]['inverse']}
     dss = case['datasets']
     labelled = dss[0]['labels'] is not None
-    if case['kind'] == 'single':
-        a, ds = answers[0], dss[0]
-        if labelled:
-            conds = [lkey(v) for v in a['labels']]
-            names = sorted(ds['descs'])
-            pdesc = {}
-            for name, col in zip(names, a['descs']):
-                pdesc[name] = None if col is None else {c: lkey(v) for c, v in zip(conds, col)}
-        else:
-            conds = ['#%d' % i for i in range(len(ds['X']))]
-            pdesc = {name: {c: lkey(v) for c, v in zip(conds, col)} for name, col in ds['descs'].items()}
-        if case['variant']['wrap'] != 'single':
-            pdesc = {}
-        rd = {k: lkey(v) for k, v in ds['ddesc'].items()}
-        return {'conds': sorted(conds), 'pdesc': pdesc,
-                'rdms': [{'values': _vals_from_vec(case, conds, a['vec']), 'rdesc': rd}]}
-    if case['kind'] == 'list':
+    var = case['variant']
+    if case['kind'] in ('single', 'list') and labelled:
         a = answers[0]
-        conds = [lkey(v) for v in a['labels']] if labelled else \
-            ['#%d' % i for i in range(len(dss[0]['X']))]
-        merged = {name: col for name, col in answers[1]}
+        if a.get('none'):
+            return {'model_error': 'the call layer of the model rejects the method'}
+        rest = answers[1:]
+        if not _is_base(var):
+            if rest[0].get('none') or not _same_stack(case, a, rest[0]):
+                return {'model_error': 'model: input-form variant and base form disagree',
+                        'variant': a, 'base': rest[0]}
+            rest = rest[1:]
+        conds = [lkey(v) for v in a['labels']]
+        rows = _rdesc_rows(a, len(a['vecs']))
+        if rows is None:
+            return {'model_error': 'model: rdm descriptor column of the wrong length'}
+        out = {'conds': sorted(conds), 'pdesc': {},
+               'rdms': [{'values': _vals_from_vec(case, conds, vec), 'rdesc': rows[k]}
+                        for k, vec in enumerate(a['vecs'])]}
+        if case['kind'] == 'single' and var['wrap'] == 'single':
+            out['pdesc'] = {name: None if col is None else {c: lkey(v) for c, v in zip(conds, col)}
+                            for name, col in a['pdesc']}
+        if rest:
+            m = rest[0]
+            out['means'] = {lkey(u): [_dec(case, x) for x in row]
+                            for u, row in zip(m['unique'], m['means'])}
+        return out
+    if case['kind'] == 'single':
+        a, ds, st = answers[0], dss[0], answers[1]
+        conds = ['#%d' % i for i in range(len(ds['X']))]
+        pdesc = {name: {c: lkey(v) for c, v in zip(conds, col)} for name, col in ds['descs'].items()}
+        if var['wrap'] != 'single':
+            pdesc = {}
+        rows = None if st.get('none') else _rdesc_rows(st, 1)
+        if rows is None:
+            return {'model_error': 'model: rdm descriptor column of the wrong length'}
+        return {'conds': sorted(conds), 'pdesc': pdesc,
+                'rdms': [{'values': _vals_from_vec(case, conds, a['vec']), 'rdesc': rows[0]}]}
+    if case['kind'] == 'list':
+        a, st = answers[0], answers[1]
+        conds = ['#%d' % i for i in range(len(dss[0]['X']))]
+        rows = _rdesc_rows(st, len(dss))
+        if rows is None:
+            return {'model_error': 'model: rdm descriptor column of the wrong length'}
         rdms = []
         for k, (ds, vec) in enumerate(zip(dss, a['vecs'])):
             if case.get('align'):       # every dataset's vector is in its own observation order
                 conds = [lkey(v) for v in ds['descs'][case['align']]]
-            rdms.append({'values': _vals_from_vec(case, conds, vec),
-                         'rdesc': {name: lkey(col[k]) for name, col in merged.items()}})
+            rdms.append({'values': _vals_from_vec(case, conds, vec), 'rdesc': rows[k]})
         return {'conds': sorted(conds), 'pdesc': {}, 'rdms': rdms}
-    # movie: frames of every dataset, in order
-    rdms, conds = [], None
-    for ds, a in zip(dss, answers):
-        for f in a['frames']:
-            conds = [lkey(v) for v in f['labels']] if labelled else \
-                ['#%d' % i for i in range(len(ds['X']))]
-            rd = {k: lkey(v) for k, v in ds['ddesc'].items()}
-            rd[case['tname']] = lkey(unrat(f['time']))
-            rdms.append({'values': _vals_from_vec(case, conds, f['vec']), 'rdesc': rd})
-    return {'conds': sorted(conds or []), 'pdesc': {}, 'rdms': rdms}
+    # movies
+    if labelled:
+        a = answers[0]
+        if a.get('none'):
+            return {'model_error': 'the call layer of the model rejects the method'}
+        conds = [lkey(v) for v in a['labels']]
+        rows = _rdesc_rows(a, len(a['vecs']))
+        if rows is None:
+            return {'model_error': 'model: rdm descriptor column of the wrong length'}
+        return {'conds': sorted(conds), 'pdesc': {},
+                'rdms': [{'values': _vals_from_vec(case, conds, vec), 'rdesc': rows[k]}
+                         for k, vec in enumerate(a['vecs'])]}
+    st = answers[-1]
+    frames = [f for a in answers[:-1] for f in a['frames']]
+    rows = _rdesc_rows(st, len(frames))
+    if rows is None:
+        return {'model_error': 'model: rdm descriptor column of the wrong length'}
+    rdms, conds = [], []
+    for k, f in enumerate(frames):
+        conds = ['#%d' % i for i in range(_n_from_len(len(f['vec'])))]
+        rdms.append({'values': _vals_from_vec(case, conds, f['vec']), 'rdesc': rows[k]})
+    return {'conds': sorted(conds), 'pdesc': {}, 'rdms': rdms}
 
 
 def compare(case, impl, model):
@@ -748,6 +977,13 @@ def compare(case, impl, model):
         got = impl['pdesc'].get(name, 'absent')
         if got != want:
             return f'pattern descriptor {name}: impl {got} != model {want}'
+    if 'means' in model:
+        got = impl.get('means')
+        if got is None or sorted(got) != sorted(model['means']):
+            return f"condition means of int data: impl {got} != model {model['means']}"
+        for c, row in model['means'].items():
+            if len(got[c]) != len(row) or any(not close(x, y, RTOL, ATOL) for x, y in zip(got[c], row)):
+                return f'condition mean of {c} (int data): impl {got[c]} != model {row}'
     return None
 
 
@@ -808,6 +1044,33 @@ def features(case, impl):
             br.append('movie:noise_list')
         if case['tname'] != 'time':
             br.append('movie:other_time_descriptor')
+        if not labelled and len(set(tl)) < len(tl):
+            br.append('movie:nodesc_repeated')
+        if case['bins'] is not None:
+            bt = tform.get('bins_type')
+            if bt in ('tuple', 'array2d'):
+                br.append('movie:bins_' + bt)
+            bl = [[fr(x) for x in b] for b in case['bins']]
+            flat = [x for b in bl for x in set(b)]
+            if len(flat) != len(set(flat)):
+                br.append('movie:bins_overlap')
+            if any(x not in tl for x in flat):
+                br.append('movie:bins_foreign')
+            if any(len(b) != len(set(b)) for b in bl):
+                br.append('movie:bins_dupval')
+        if var['dtype'] == 'int':
+            br.append('movie:dtype_int')
+    if var.get('layout') in ('F', 'strided'):
+        br.append('layout:' + var['layout'])
+    if isinstance(nz, dict) and nz.get('container') in ('array3d', 'tuple') \
+            and all(m is not None for m in nz['per']):
+        br.append('noise:' + nz['container'])
+    if case['kind'] in ('single', 'list') and labelled and not _is_base(var):
+        br.append('form:base_checked')
+    if case['kind'] == 'single' and labelled and var['dtype'] == 'int':
+        br.append('means:int')
+    if case['method'] == 'poisson':
+        br.append('priors:given' if case['opts_given'] else 'priors:default')
     if isinstance(nz, dict) and 'per' in nz and any(m is None for m in nz['per']):
         br.append('noise:list_none')
     if any('params' in ds['ddesc'] for ds in dss):
